@@ -34,9 +34,6 @@ MUTANTS = [
  ("c03_pad_uses_request_parity_seq", "C03", [
    ("crypt.go", "seqNo := []byte{byte(p.Header.SeqNo)}", "seqNo := []byte{byte(p.Header.SeqNo | 1)}"),
  ]),
- ("c03_pad_chain_restarts_every_256_bytes", "C03", [
-   ("crypt.go", "\t\tlastHash = h.Sum(nil)\n", "\t\tlastHash = h.Sum(nil)\n\t\tif len(pad) > 0 && len(pad)%4096 == 0 {\n\t\t\tlastHash = lastHash[:0]\n\t\t}\n"),
- ]),
  ("c04_acct_request_min_length_guard_off_by_one", "C04", [
    ("accounting.go", "if len(data) < AcctRequestLen {", "if len(data) < AcctRequestLen-1 {"),
  ]),
